@@ -332,6 +332,35 @@ func parserReplay(args []string) {
 		}
 	})
 
+	// the maximum hash length applies to every hash of a request, each at its own length: requests whose delta hash is
+	// computed with the other configured algorithm (88 characters next to hashes of 46, and the other way round) under
+	// limits on either side of each length
+	for _, typ := range []string{"update", "recover"} {
+		for _, h := range []int{256, 512} {
+			for _, limit := range []uint{45, 46, 60, 87, 88, 100} {
+				o := ROp{Type: typ, Wf: "ok", Reveal: "ok", Sig: "ok", Dhash: true, Dv: "ok", Sfx: true, Delta: Delta{"addkey", 1}, Nu: 1, Nr: 2,
+					Kt: []string{"p256", "ed", "k1"}[int(limit)%3], H: h, Nuv: "norm", DhOtherAlg: true}
+				req, _ := conc.buildRequest(&o, 0)
+
+				p := testProtocol(1)
+				p.MaxOperationHashLength = limit
+				p.MaxOperationSize, p.MaxDeltaSize = 100000, 50000
+
+				_, err := operationparser.New(p).Parse("did:sidetree", req)
+				want := limit >= 88 // (the longest hash of the request: one of them is a SHA-512 multihash)
+				col.nCases++
+				col.kind(fmt.Sprintf("sizelimits:mixed-hashes:%s:h=%d:limit=%d", typ, h, limit))
+
+				if (err == nil) != want {
+					col.report(mismatch{Kind: "size-verdict", Key: fmt.Sprintf("size-verdict:mixed-hashes:%s:h=%d:limit=%d", typ, h, limit), Case: o,
+						Detail:   fmt.Sprintf("hashes of 46 and 88 characters in one request, maximum hash length %d: %v", limit, err),
+						Expected: map[string]interface{}{"accepted": want}, Actual: map[string]interface{}{"accepted": err == nil},
+						Concrete: string(req), Replay: map[string]interface{}{"cmd": append([]string{"sizelimits-replay"}, args...), "stdin": ""}})
+				}
+			}
+		}
+	}
+
 	col.sum.Extra["accepted"] = accepted
 	col.finish()
 }
